@@ -369,3 +369,31 @@ Print Assumptions c02_seek_bytes_is_seek_at_boundaries.
 Example c02_example_encodes :
   SeekBytesBoundary.encodes Inflate.inflate Frame.eof_block [mkFrame 28 []].
 Proof. exact SeekBytesBoundary.encodes_eof. Qed.
+
+(* AFTER AN ERROR (repair da5f8c7: block_invalidate).  When the loop that looks for the next block
+   (read_nonempty_block_with, used by read / fill_buf / seek) fails on a frame - bad header, bad
+   BSIZE / ISIZE, short file, inflate or CRC failure - the failed block is NOT the current block:
+   (1) if anything at all is readable afterwards, the block is the untouched previous block (so
+       no byte of the failed block is ever delivered; after an inflate / CRC failure the previous
+       block is left exhausted because its buffer was overwritten);
+   (2) if the previous block was exhausted (always the case when read / fill_buf load a block),
+       the position told is unchanged - or has advanced over well-formed EMPTY frames that were
+       skipped before the failing one, to the end of the last of them. *)
+Theorem c02_failed_block_not_current : forall fuel src pos b pos' b' e,
+  rnb Inflate.inflate fuel src pos b = (pos', b', Err e) ->
+  (k_cur b' < k_len b' -> b' = b) /\
+  (k_len b <= k_cur b ->
+   blk_vpos b' = blk_vpos b \/ exists p s, b' = mkBlk p s 0 0 /\ pos' = p + s).
+Proof. exact (SeekBytesProofs.failed_block_not_current Inflate.inflate). Qed.
+Print Assumptions c02_failed_block_not_current.
+
+(* the same as seen through Read::read (buffers < 65536 bytes) of the byte-level reader that goes
+   on after errors: a failing call leaves nothing readable and tells the position told before it
+   (or one advanced over empty frames only) *)
+Theorem c02_failed_read_tells_same_position : forall s n s' e,
+  read_b Inflate.inflate s n = (s', Err e) ->
+  k_len (s_blk s') <= k_cur (s_blk s') /\
+  (blk_vpos (s_blk s') = blk_vpos (s_blk s) \/
+   exists p sz, s_blk s' = mkBlk p sz 0 0 /\ s_position s' = p + sz).
+Proof. exact (SeekBytesProofs.read_b_err Inflate.inflate). Qed.
+Print Assumptions c02_failed_read_tells_same_position.
